@@ -246,7 +246,7 @@ fn single(ctx: &Ctx, rep: &mut Report, id: usize, cfg: Cfg, k: usize) {
                 },
             };
             let Some(first_dep) = first_dep else { continue };
-            let Ok(alt) = apply_mutation(&case, &parts, None, &mu) else { continue };
+            let Ok(alt) = apply_mutation(&case, &proof, &parts, None, &mu) else { continue };
             let (eva, oka) = probed_verify(&alt.t, &alt.st, &alt.proof);
             let fork = eva.iter().find(|e| e.kind == Kind::Clone).map(|e| e.id2).unwrap_or(0);
             let aid = challenge_ids(&eva).into_iter().find(|i| root_of(&eva, *i) == root_of(&eva, fork));
